@@ -196,6 +196,24 @@ class Check(PropertyCheck):
             out['inner'] = [bool(v) for v in np.ravel(inner.contains(pc))]
             out['outer'] = [bool(v) for v in np.ravel(outer.contains(pc))]
             out['area'] = [float(reg.area), float(outer.area), float(inner.area)]
+            # the centre-mode mask of an annulus is xor(inner mask, outer mask) on the outer box
+            try:
+                m = reg.to_mask('center')
+                m1, m2 = inner.to_mask('center'), outer.to_mask('center')
+                B = m.bbox
+                ob = outer.bounding_box
+                out['bbox'] = [B.ixmin, B.ixmax, B.iymin, B.iymax]
+                out['bbox_union'] = [ob.ixmin, ob.ixmax, ob.iymin, ob.iymax]
+                exp = np.zeros((ob.iymax - ob.iymin, ob.ixmax - ob.ixmin), dtype=int)
+                for mk in (m1, m2):
+                    bb = mk.bbox
+                    sub = np.zeros_like(exp)
+                    sub[bb.iymin - ob.iymin:bb.iymax - ob.iymin, bb.ixmin - ob.ixmin:bb.ixmax - ob.ixmin] = np.asarray(mk.data, dtype=int)
+                    exp = np.logical_xor(exp, sub).astype(int)
+                out['mask'] = np.asarray(m.data, dtype=int).tolist()
+                out['mask_expected'] = exp.tolist()
+            except NotImplementedError:
+                out['mask'] = None
         return out
 
     def requests(self, case):
@@ -297,6 +315,11 @@ class Check(PropertyCheck):
             a, ao, ai = real['area']
             if abs(a - (ao - ai)) > 1e-12 * max(abs(ao), 1e-300):
                 bad('annulus_area_wrong', f'{a} vs {ao} - {ai}')
+            if real.get('mask') is not None:
+                if real['bbox'] != real['bbox_union']:
+                    bad('annulus_bbox_not_outer', f'{real["bbox"]} vs {real["bbox_union"]}')
+                elif real['mask'] != real['mask_expected']:
+                    bad('annulus_mask_not_xor_of_masks', f'{real["mask"]} vs {real["mask_expected"]}')
         return V
 
     def nontrivial(self, case, real):
